@@ -30,6 +30,9 @@ type Config struct {
 	HintMax    int  `json:"hint_max"`
 	StallDen   int  `json:"stall_den"`
 	Concurrent bool `json:"concurrent"`
+	// ReuseBuf: the packet loop reads every frame into one buffer and overwrites it with garbage
+	// after Parse/ProcessPacket/Notify returned (what a real read loop's next ReadFrom does)
+	ReuseBuf bool `json:"reuse_buf"`
 }
 
 // MAC indexes
